@@ -44,7 +44,12 @@ RULE = ("random ranked base rule systems (3-6 variables, mostly month/year, date
         "rate), a look at every system "
         "(variable table through the system and through both entities, parameters at boundary dates) after every derivation, "
         "and evaluations (fresh and long-lived simulations) on base and derived systems in both orders; non-trivial when at "
-        "least one derivation succeeded and one formula ran on a derived system; distinct by JSON text")
+        "least one derivation succeeded and one formula ran on a derived system; distinct by JSON text.  Second stream "
+        "(oracle only, n/8 cases): the YAML test runner's derivation tools.test_runner._get_tax_benefit_system(baseline, "
+        "reforms by dotted path, extensions by package name) with generated reform modules (mostly variables-only reforms, "
+        "chains of 0-2) and a generated extension package shipping a variable and parameters, 3-6 calls per baseline "
+        "including repeated arguments; the baseline's variables, parameter names, parameter values and answers are "
+        "compared before and after every call")
 TRUSTED = ["harness/rules.py: compiler from rule-system terms to real Variable subclasses (formulas call the public API)",
            "harness/c14.py: construction of Variable / Reform subclasses from the script"]
 ASSUMPTIONS = [
@@ -252,7 +257,7 @@ def _requests_for(rng, table, year, pop, extra_annual=True):
     return reqs
 
 
-def gen_case(rng):
+def _gen_base(rng):
     sys = rules.gen_system(rng, PROFILE)
     pop = rules.gen_pop(rng, 4)
     year = rng.choice([2018, 2019])
@@ -288,6 +293,11 @@ def gen_case(rng):
             inputs.append(["set", i, p, rules.input_values(rng, v, rules.count_for(pop, v))])
     for v in sys["vars"]:
         v.pop("divisible", None)
+    return sys, pop, year, nbase, nflat, nparams, inputs
+
+
+def gen_case(rng):
+    sys, pop, year, nbase, nflat, nparams, inputs = _gen_base(rng)
     meta = [{"table": [_sym_var(v) for v in sys["vars"]], "base": None, "own_tree": True, "children": 0}]
     base_reqs = _requests_for(rng, meta[0]["table"], year, pop)
     steps = [["look", 0], ["eval", 0, True, base_reqs], ["eval", 0, False, base_reqs]]
@@ -356,6 +366,44 @@ def gen_case(rng):
             "nnames": nbase + 3, "dates": [list(d) for d in dates], "year": year, "nflat": nflat}
 
 
+def gen_runner_case(rng):
+    """Derivations as the YAML test runner makes them: tools.test_runner._get_tax_benefit_system
+    (baseline, reforms by dotted path, extensions by package name).  Oracle only."""
+    sys, pop, year, nbase, nflat, nparams, inputs = _gen_base(rng)
+    table0 = [_sym_var(v) for v in sys["vars"]]
+    reforms = []
+    for _ in range(rng.randint(2, 3)):
+        tmp = [{"table": copy.deepcopy(table0), "base": 0, "own_tree": False, "children": 0}]
+        mods = []
+        for _ in range(rng.choice([1, 1, 2, 3])):
+            m, ex = _gen_mod(rng, tmp, 0, nbase, nparams, True)
+            if ex != "ok" or m[0] in ("add", "replace") or (m[0] == "modify_params" and rng.random() < 0.7):
+                m = ["neutralize", rng.randrange(nbase)]      # mostly reforms of variables only
+            mods.append(m)
+            _sym_apply(tmp[0]["table"], m)
+        reforms.append(mods)
+    calls = []
+    for _ in range(rng.randint(3, 5)):
+        k = rng.choice([0, 1, 1, 1, 2])
+        chain = [rng.randrange(len(reforms)) for _ in range(k)]
+        if k == 2:
+            # class bodies are written against the baseline: chain only reforms that do not update
+            # a variable the other one touches
+            names = [{m[1] for m in reforms[r] if m[0] != "modify_params"} for r in chain]
+            upd = [{m[1] for m in reforms[r] if m[0] == "update"} for r in chain]
+            if chain[0] == chain[1] and upd[0] or names[0] & upd[1] or upd[0] & names[1]:
+                chain = chain[:1]
+        calls.append([chain, rng.random() < 0.8])
+    if rng.random() < 0.7:
+        calls.append(list(rng.choice(calls)))                  # the same arguments again
+    ext = {"default": rng.randint(0, 5), "amount": rng.randint(1, 60), "root": rng.randint(1, 60),
+           "start": [rng.choice([2000, 2010]), 1, 1]}
+    reqs = _requests_for(rng, table0, year, pop, extra_annual=False)
+    return {"kind": "runner", "sys": sys, "pop": pop, "inputs": inputs, "window": list(WINDOW), "nnames": nbase + 3,
+            "dates": [[2000, 1, 1], [2015, 12, 31], [2018, 6, 30]], "year": year, "nflat": nflat,
+            "reforms": reforms, "calls": calls, "ext": ext, "reqs": reqs}
+
+
 def _boundaries(u):
     _k, start, stop, _v = u[:4]
     out = [start, _shift(start, -1)]
@@ -371,7 +419,8 @@ def _shift(d, n):
 
 def generate(rng, tier):
     n = {"quick": 260, "escalated": 900, "thorough": 4000}[tier]
-    return [gen_case(rng) for _ in range(n)]
+    cases = [gen_case(rng) for _ in range(n)]
+    return cases + [gen_runner_case(rng) for _ in range(max(30, n // 8))]
 
 
 # ---------------------------------------------------------------------------------------
@@ -524,7 +573,187 @@ def look_system(tbs, sim, nnames, nparams, dates, nflat):
     return [via_sys, via_ent, params]
 
 
+_RUNNER_COUNT = [0]
+
+EXT_VARIABLE = """
+from openfisca_core import periods
+from openfisca_core.entities import build_entity
+from openfisca_core.variables import Variable
+
+_person = build_entity(key="person", plural="persons", label="", is_person=True)
+
+
+class ext_bonus(Variable):
+    value_type = int
+    entity = _person
+    definition_period = periods.DateUnit.MONTH
+    default_value = {default}
+
+    def formula(person, period, parameters):
+        return person.empty_array() + parameters(period).extp.amount + parameters(period).ext_root
+"""
+
+REFORM_MODULE = """
+import json
+
+import c14
+
+SPECS = json.loads(r\'\'\'{specs}\'\'\')
+NREF = {{"vars": [None] * {nnames}, "max_loops": 1, "nflat": {nflat}}}
+for _i, _mods in enumerate(SPECS):
+    _cls = c14.make_reform(_mods, NREF, set())
+    _cls.__name__ = "R%d" % _i
+    globals()["R%d" % _i] = _cls
+"""
+
+
+def parameter_names(node, prefix=""):
+    """every name of the tree (nodes, leaves, scales), dotted"""
+    out = []
+    for name, child in sorted(getattr(node, "children", {}).items()):
+        out.append(prefix + name)
+        out += parameter_names(child, prefix + name + ".")
+    return out
+
+
+def run_runner(case):
+    """The derivations of the YAML test runner on a real baseline; what the baseline shows before
+    and after each of them."""
+    import importlib
+    import logging
+    import os
+    import pathlib
+    import shutil
+    import sys as pysys
+    import textwrap
+
+    from openfisca_core.tools import test_runner
+
+    sysj, pop = case["sys"], case["pop"]
+    nparams, nflat = len(sysj["params"]), case["nflat"]
+    nref = {"vars": [None] * case["nnames"], "max_loops": 1, "nflat": nflat}
+    _RUNNER_COUNT[0] += 1
+    tag = f"{os.getpid()}_{_RUNNER_COUNT[0]}"
+    work = pathlib.Path(f"/root/scratch/c14-run-{tag}")
+    rmod, ext = f"c14_reforms_{tag}", f"c14_extension_{tag}"
+    switches = set()
+    logging.disable(logging.CRITICAL)
+    try:
+        (work / ext / "parameters" / "extp").mkdir(parents=True)
+        (work / f"{rmod}.py").write_text(REFORM_MODULE.format(specs=json.dumps(case["reforms"]), nnames=case["nnames"],
+                                                              nflat=nflat))
+        (work / ext / "__init__.py").write_text("")
+        (work / ext / "bonus.py").write_text(EXT_VARIABLE.format(default=case["ext"]["default"]))
+        leaf = "description: harness\nvalues:\n  {date}:\n    value: {value}\n"
+        (work / ext / "parameters" / "extp" / "amount.yaml").write_text(
+            leaf.format(date=_iso(case["ext"]["start"]), value=case["ext"]["amount"]))
+        (work / ext / "parameters" / "ext_root.yaml").write_text(
+            leaf.format(date=_iso(case["ext"]["start"]), value=case["ext"]["root"]))
+        pysys.path.insert(0, str(work))
+        importlib.invalidate_caches()
+        with warnings.catch_warnings():
+            warnings.simplefilter("ignore")
+            base = rules.build_system(dict(sysj, params=sysj["params"][:nflat]), switches)
+            add_extra_parameters(base, sysj["params"][nflat:])
+
+            def answers(tbs, reqs):
+                sim = rules.build_simulation(tbs, pop, {}, nref)
+                out = []
+                for r in case["inputs"] + reqs:
+                    try:
+                        out.append(rules.do_request(sim, nref, switches, r))
+                    except rules.Inexact:
+                        raise
+                    except Exception as e:  # noqa: BLE001
+                        out.append(Err(errkind(e), f"{type(e).__name__}: {e}"[:200]))
+                return out
+
+            def observe_base():
+                return {"look": look_system(base, None, case["nnames"], nparams, case["dates"], nflat),
+                        "names": parameter_names(base.parameters),
+                        "variables": sorted(base.variables),
+                        "answers": answers(base, case["reqs"])}
+
+            out = {"before": observe_base(), "calls": []}
+            seen = {}
+            for chain, with_ext in case["calls"]:
+                paths = [f"{rmod}.R{k}" for k in chain]
+                exts = [ext] if with_ext else []
+                rec = {}
+                try:
+                    derived = test_runner._get_tax_benefit_system(base, paths, exts)
+                    key = (tuple(chain), with_ext)
+                    rec["same_object_as_before"] = None if key not in seen else seen[key] is derived
+                    seen[key] = derived
+                    rec["is_baseline"] = derived is base
+                    rec["names"] = parameter_names(derived.parameters)
+                    rec["has_ext_variable"] = derived.get_variable("ext_bonus") is not None
+                    rec["look"] = look_system(derived, None, case["nnames"], nparams, case["dates"], nflat)
+                    if with_ext:
+                        sim = rules.build_simulation(derived, pop, {}, nref)
+                        rec["ext_bonus"] = rules.ints(sim.calculate("ext_bonus", rules.mk_period(["month", [case["year"], 3, 1], 1])))
+                    rec["error"] = None
+                except rules.Inexact:
+                    raise
+                except Exception as e:  # noqa: BLE001
+                    rec["error"] = Err(errkind(e), f"{type(e).__name__}: {e}"[:300])
+                rec["base"] = observe_base()
+                out["calls"].append(rec)
+            return out
+    except rules.Inexact:
+        _SKIP.add(_key(case))
+        return "skip"
+    finally:
+        logging.disable(logging.NOTSET)
+        if str(work) in pysys.path:
+            pysys.path.remove(str(work))
+        for name in [m for m in pysys.modules if m == rmod or m == ext or m.endswith(f"_{tag}_bonus") or tag in m]:
+            pysys.modules.pop(name, None)
+        shutil.rmtree(work, ignore_errors=True)
+
+
+def oracle_runner(case, obs):
+    before = obs["before"]
+    n = len(case["pop"]["ids"])
+    for k, ((chain, with_ext), rec) in enumerate(zip(case["calls"], obs["calls"])):
+        what = f"call {k} _get_tax_benefit_system(baseline, reforms {chain}, extension {with_ext})"
+        for part in ("variables", "names", "look", "answers"):
+            if rec["base"][part] != before[part]:
+                return (f"runner-frame: after {what} the baseline's {part} changed: "
+                        f"{_first_diff(before[part], rec['base'][part])}")
+        if rec["error"] is not None:
+            return f"runner-derivation-raised: {what}: {rec['error'].msg}"
+        if rec["is_baseline"]:
+            return f"runner-frame: {what} returned the baseline itself"
+        if rec["same_object_as_before"] is False:
+            return f"runner-cache: {what} did not return the system it built for the same arguments"
+        if rec["has_ext_variable"] != with_ext:
+            return f"runner-derived: {what}: extension variable present = {rec['has_ext_variable']}"
+        if ("extp.amount" in rec["names"]) != with_ext or ("ext_root" in rec["names"]) != with_ext:
+            return f"runner-derived: {what}: parameter names {rec['names']}"
+        if with_ext and rec["ext_bonus"] != [case["ext"]["amount"] + case["ext"]["root"]] * n:
+            return f"runner-derived: {what}: ext_bonus = {rec['ext_bonus']}"
+        # variables the reforms do not name are the baseline's
+        named = {m[1] for r in chain for m in case["reforms"][r] if m[0] not in ("modify_params", "edit_params")}
+        for v, (a, b) in enumerate(zip(before["look"][0], rec["look"][0])):
+            if v not in named and a != b:
+                return f"runner-derived: {what}: v{v} is {b}, in the baseline {a}"
+        if not any(m[0] == "modify_params" for r in chain for m in case["reforms"][r]) and rec["look"][2] != before["look"][2]:
+            return f"runner-derived: {what}: parameters {rec['look'][2]}, in the baseline {before['look'][2]}"
+    return None
+
+
+def _first_diff(a, b):
+    if isinstance(a, list) and isinstance(b, list):
+        extra = [x for x in b if x not in a]
+        missing = [x for x in a if x not in b]
+        return f"new {extra[:6]}, gone {missing[:6]}"
+    return f"{a} -> {b}"
+
+
 def run_impl(case):
+    if case.get("kind") == "runner":
+        return run_runner(case)
     sysj, pop = case["sys"], case["pop"]
     nref = {"vars": [None] * case["nnames"], "max_loops": sysj.get("max_loops", 1)}
     switches = set()
@@ -651,14 +880,16 @@ def cstep(s, case):
 
 
 def coq_case(case):
-    if _key(case) in _SKIP:
-        return "Corr_C14.CSkip"
+    if _key(case) in _SKIP or case.get("kind") == "runner":
+        return "Corr_C14.CSkip"             # the test-runner stream is oracle only
     y0, ny = case["window"]
     return (f"(CCase {cz(y0)} {rules.cnat(ny)} {rules.csys(case['sys'], None)} {rules.cpop(case['pop'])} "
             f"{clist([rules.crequest(r) for r in case['inputs']])} {clist([cstep(s, case) for s in case['steps']])})")
 
 
 def obs_for_coq(case, obs):
+    if case.get("kind") == "runner" and not isinstance(obs, Err):
+        return "skip"
     return obs
 
 
@@ -904,6 +1135,8 @@ def _diff(a, b):
 def oracle(case, obs):
     if obs == "skip" or isinstance(obs, Err):
         return None if obs == "skip" else f"driver: {obs.kind} {obs.msg}"
+    if case.get("kind") == "runner":
+        return oracle_runner(case, obs)
     findings, f20 = _walk(case, obs)
     if findings:
         cls, text = findings[0]
@@ -928,6 +1161,8 @@ def known(case, obs, msg):
 def nontrivial(case, obs):
     if obs == "skip" or isinstance(obs, Err):
         return False
+    if case.get("kind") == "runner":
+        return any(chain and with_ext and rec["error"] is None for (chain, with_ext), rec in zip(case["calls"], obs["calls"]))
     derived_ok = any(s[0] in ("clone", "reform", "mod") and o is None for s, o in zip(case["steps"], obs))
     ran = any(s[0] == "eval" and s[1] > 0 and isinstance(o, list) and any(isinstance(a, list) for a in o)
               for s, o in zip(case["steps"], obs))
@@ -939,6 +1174,8 @@ def classify(case, obs):
         return "skipped-inexact"
     if isinstance(obs, Err):
         return "driver-error"
+    if case.get("kind") == "runner":
+        return "test-runner"
     kinds = set()
     for s in case["steps"]:
         if s[0] == "clone":
